@@ -91,6 +91,7 @@ type c01Run struct {
 	release  map[int]chan error
 	cur      int64 // seconds since base
 	hookOK   bool
+	fresh    map[int]bool // tasks whose Do->Doing / Undo->Undoing write was seen by the hook during this event
 	failMsg  map[int]string
 	retryAt  map[int]int64 // earliest allowed restart (driver bookkeeping, independent of Task.atTime)
 	steps    []c01Step
@@ -130,7 +131,7 @@ func (h *c01Run) handler(undo bool) HandlerFunc {
 
 func c01New(in c01In) *c01Run {
 	h := &c01Run{in: in, idx: map[string]int{}, announce: make(chan c01Start, 64), release: map[int]chan error{},
-		hookOK: true, failMsg: map[int]string{}, retryAt: map[int]int64{}}
+		hookOK: true, fresh: map[int]bool{}, failMsg: map[int]string{}, retryAt: map[int]int64{}}
 	h.st = New(nil)
 	h.r = NewTaskRunner(h.st)
 	h.r.AddHandler("u", h.handler(false), h.handler(true))
@@ -168,6 +169,7 @@ func c01New(in c01In) *c01Run {
 			return
 		}
 		if (old == DoStatus || old == DefaultStatus) && new == DoingStatus {
+			h.fresh[i] = true
 			for _, j := range h.in.Tasks[i].Waits {
 				if h.tasks[j].Status() != DoneStatus {
 					h.hookOK = false
@@ -175,6 +177,7 @@ func c01New(in c01In) *c01Run {
 			}
 		}
 		if old == UndoStatus && new == UndoingStatus {
+			h.fresh[i] = true
 			for _, j := range h.halts[i] {
 				switch h.tasks[j].Status() {
 				case DoneStatus, UndoneStatus, HoldStatus, ErrorStatus:
@@ -292,7 +295,7 @@ func (h *c01Run) ensureFix() []string {
 		if len(pre) > 0 {
 			h.preSeen = true
 		}
-		out = append(out, vh.CoqTuple(vh.CoqNat(s.t), vh.CoqBool(s.undo), vh.CoqList(pre), vh.CoqBool(gate)))
+		out = append(out, "(SR "+strconv.Itoa(s.t)+" "+vh.CoqBool(s.undo)+" "+c01Vec(pre)+" "+vh.CoqBool(gate)+" "+vh.CoqBool(h.fresh[s.t])+")")
 	}
 	return out
 }
@@ -395,6 +398,7 @@ func (h *c01Run) observe(starts []string) c01Obs {
 		sort.Ints(o.Err)
 	}
 	h.hookOK = true
+	h.fresh = map[int]bool{}
 	return o
 }
 
@@ -535,6 +539,7 @@ func c01Exec(in c01In) (steps []c01Step, h *c01Run) {
 	if r.Chance(1, 8) {
 		failUndo[r.Intn(n)] = true
 	}
+	dirty := true // something happened since the last Ensure
 	for step := 0; step < in.Steps && !stop(); step++ {
 		if h.settled() {
 			break
@@ -555,14 +560,22 @@ func c01Exec(in c01In) (steps []c01Step, h *c01Run) {
 		switch {
 		case x < in.AbortP:
 			h.apply(c01Ev{K: "abort"})
-		case x < in.AbortP+30:
+			dirty = true
+		case x < in.AbortP+30 || (!dirty && len(running) == 0 && len(waiting) == 0):
 			h.apply(c01Ev{K: "tick", D: int64(r.Range(1, 4))})
-		case x < in.AbortP+90 && len(waiting) > 0:
+			dirty = true
+		case x < in.AbortP+120 && len(waiting) > 0:
 			h.apply(c01Ev{K: "resolve", T: waiting[r.Intn(len(waiting))]})
-		case x < 550 && len(running) > 0:
+			dirty = true
+		case (x < 700 || !dirty) && len(running) > 0:
 			h.apply(h.outcome(r, running[r.Intn(len(running))], failDo, failUndo, false))
+			dirty = true
+		case !dirty && len(waiting) > 0:
+			h.apply(c01Ev{K: "resolve", T: waiting[r.Intn(len(waiting))]})
+			dirty = true
 		default:
 			h.apply(c01Ev{K: "ensure"})
+			dirty = false
 		}
 	}
 	// drain: let everything finish
@@ -603,22 +616,26 @@ func c01Exec(in c01In) (steps []c01Step, h *c01Run) {
 
 // ---------------------------------------------------------------- Coq rendering
 
+// Coq list as a chain of conses: the bracket notation is an order of magnitude slower to elaborate for long lists
+func c01List(items []string) string {
+	if len(items) == 0 {
+		return "nil"
+	}
+	return "(" + strings.Join(items, " :: ") + " :: nil)"
+}
+
 func c01Nats(l []int) string {
 	items := make([]string, len(l))
 	for i, x := range l {
-		items[i] = vh.CoqNat(x)
+		items[i] = strconv.Itoa(x)
 	}
-	return vh.CoqList(items)
+	return c01List(items)
 }
 
 func c01CoqEv(e c01Ev, n int) string {
 	switch e.K {
 	case "ensure":
-		order := make([]int, n)
-		for i := range order {
-			order[i] = i
-		}
-		return "(Ensure " + c01Nats(order) + ")"
+		return "(EEnsure " + strconv.Itoa(n) + ")"
 	case "finish":
 		o := "OOk"
 		switch e.O {
@@ -631,33 +648,57 @@ func c01CoqEv(e c01Ev, n int) string {
 		case "waitu":
 			o = "(OWait true)"
 		}
-		return "(Finish " + vh.CoqNat(e.T) + " " + o + ")"
+		return "(EFinish " + strconv.Itoa(e.T) + " " + o + ")"
 	case "abort":
 		return "UAbort"
 	case "tick":
 		return "(Tick " + vh.CoqZ(e.D) + ")"
 	case "resolve":
-		return "(Resolve " + vh.CoqNat(e.T) + ")"
+		return "(EResolve " + strconv.Itoa(e.T) + ")"
 	}
 	return "?"
 }
 
+var c01Codes = map[string]byte{"Hold": '0', "Do": '1', "Doing": '2', "Done": '3', "Abort": '4', "Undo": '5', "Undoing": '6',
+	"Undone": '7', "Error": '8', "Wait": '9'}
+
+// status vector as the decimal number 1d1..dn (decoded by TaskEngine.dec_sts)
+func c01Vec(sts []string) string {
+	b := []byte{'1'}
+	for _, s := range sts {
+		b = append(b, c01Codes[s])
+	}
+	return string(b)
+}
+
+// id set as a bit mask (the sentinel 999 is bit 60)
+func c01Mask(l []int) string {
+	var m uint64
+	for _, x := range l {
+		if x > 59 {
+			x = 60
+		}
+		m |= 1 << uint(x)
+	}
+	return strconv.FormatUint(m, 10)
+}
+
 func c01CoqObs(o c01Obs) string {
-	return "(mkObs " + vh.CoqList(o.St) + " " + c01Nats(o.Run) + " " + vh.CoqBool(o.Ready) + " " + o.Cst + " " +
-		vh.CoqBool(o.Rt) + " " + c01Nats(o.Err) + " " + c01Nats(o.Failed) + " " + vh.CoqBool(o.Panic) + " " +
-		vh.CoqList(o.Starts) + " " + vh.CoqBool(o.HookOK) + ")"
+	return "(OB " + c01Vec(o.St) + " " + c01Mask(o.Run) + " " + vh.CoqBool(o.Ready) + " " + o.Cst + " " +
+		vh.CoqBool(o.Rt) + " " + c01Mask(o.Err) + " " + c01Mask(o.Failed) + " " + vh.CoqBool(o.Panic) + " " +
+		c01List(o.Starts) + " " + vh.CoqBool(o.HookOK) + ")"
 }
 
 func c01CoqCase(in c01In, steps []c01Step) string {
 	g := make([]string, len(in.Tasks))
 	for i, t := range in.Tasks {
-		g[i] = vh.CoqTuple(c01Nats(t.Lanes), c01Nats(t.Waits), vh.CoqBool(t.Undo))
+		g[i] = "(TD " + c01Nats(t.Lanes) + " " + c01Nats(t.Waits) + " " + vh.CoqBool(t.Undo) + ")"
 	}
 	evs := make([]string, len(steps))
 	for i, s := range steps {
-		evs[i] = vh.CoqTuple(c01CoqEv(s.Ev, len(in.Tasks)), c01CoqObs(s.Obs))
+		evs[i] = "(EO " + c01CoqEv(s.Ev, len(in.Tasks)) + " " + c01CoqObs(s.Obs) + ")"
 	}
-	return "(Case " + vh.CoqList(g) + " " + vh.CoqList(evs) + ")"
+	return "(Case " + c01List(g) + " " + c01List(evs) + ")"
 }
 
 // ---------------------------------------------------------------- generators
@@ -753,7 +794,7 @@ func c01Driver(prop string, mode string) {
 		settled, failed, uabort, multi := false, false, false, false
 		if len(steps) > 0 {
 			last := steps[len(steps)-1].Obs
-			settled = len(last.Run) == 0 && last.Ready
+			settled = len(last.Run) == 0 && h.settled()
 			failed = len(last.Failed) > 0
 		}
 		for _, s := range steps {
